@@ -61,14 +61,16 @@ MkInput(ptr, nb0, v, k, b1, b1v, clash, dd, ddv, split, lead, eb, dvis, b1n, xdn
       (* dvis: the intermediate type need not be public for its own bases' functions to reach DD *)
       D == [TypeDef("D", dvis, (IF lead THEN <<Leaf("tag")>> ELSE <<>>) \o <<BaseF("b0", "B0")>> \o (IF b1 THEN <<BaseF(b1n, "B1")>> ELSE <<>>) \o <<Leaf(xdn)>>)
               EXCEPT !.vft = DBlock(nb0, v, k)]
-      DD == [TypeDef("DD", "pub", <<BaseF("d", "D")>> \o (IF dd = "diamond" THEN <<BaseF("e", "B0")>> ELSE <<>>) \o <<Leaf("y")>>)
+      (* "twin": the same type as first and as second base (the virtual functions of the second one are forwarded, renamed) *)
+      DD == [TypeDef("DD", "pub", <<BaseF("d", "D")>> \o (IF dd = "diamond" THEN <<BaseF("e", "B0")>> ELSE IF dd = "twin" THEN <<BaseF("d2", "D")>> ELSE <<>>) \o <<Leaf("y")>>)
                (* with its own block: D's, or (when D only inherits its table) the base functions again plus one *)
                (* "flat": the same without the written indices -- compatible only when the base table has no gap *)
                EXCEPT !.vft = IF ddv = "no" THEN NoVft
                               ELSE IF ddv = "flat" THEN Vft(None, Append([i \in DOMAIN BaseFuncs(nb0) |-> [BaseFuncs(nb0)[i] EXCEPT !.index = None]], G))
                               ELSE IF D.vft.has THEN D.vft ELSE Vft(None, Append(BaseFuncs(nb0), G))]
       defs == <<B0>> \o (IF b1 THEN <<B1>> ELSE <<>>) \o <<D>> \o (IF dd = "none" THEN <<>> ELSE <<DD>>)
-      impls == <<Impl("B0", <<M0(<<>>), P0, S0>>)>>
+      (* "renamed2": B0 itself has a public function called like the renamed m0 of B1 *)
+      impls == <<Impl("B0", <<M0(<<>>), P0, S0>> \o (IF clash = "renamed2" THEN <<[MD EXCEPT !.name = b1n \o "_m0"]>> ELSE <<>>))>>
                (* B1 also has a public `p0`: B0's private function of that name does not take the name *)
                \o (IF b1 THEN <<Impl("B1", <<M0(<<Arg("k", TNm("i32"))>>), Func("p0", "pub", <<>>, <<ArgC>>, TNm("u32"), 458752, None, "")>>)>> ELSE <<>>)
                (* "renamed": D's own function has the name that B1's m0 gets when it is renamed (<field>_m0): taken as well *)
@@ -108,8 +110,9 @@ MCInit ==
         /\ (nb0 = 0 => v \in {"none", "ext", "extm0", "emptyblk"})
         /\ (v = "trunc" => nb0 = 2) /\ (v = "swap" => nb0 = 2) /\ (v = "short" => nb0 = 3)
         /\ (~b1 => ~b1v)
-        /\ (clash = "renamed" => (b1 /\ v \in {"none", "same"} /\ dd = "none" /\ ~lead /\ ~split))
+        /\ (clash \in {"renamed", "renamed2"} => (b1 /\ v \in {"none", "same"} /\ dd = "none" /\ ~lead /\ ~split))
         /\ (dd = "none" => ddv = "no")
+        /\ (dd = "twin" => (ddv = "no" /\ ~b1 /\ ~lead /\ ~split /\ dvis = "pub" /\ clash = "no" /\ v \in {"none", "same", "ext"}))
         /\ (ddv = "flat" => (v = "none" /\ nb0 = 3))
         /\ (eb => nb0 = 0)
         /\ (lead => (dd = "none" /\ clash = "no" /\ ~b1v))
